@@ -797,6 +797,10 @@ fn directed(rng: &mut Rng, which: usize) -> Option<Request> {
             c.chimera = false;
             c.tmt = 0;
             c.gen_decoys = true;
+            // so that the planted-peptide claims are made (they need an intact ladder and a unique target)
+            c.deisotope = false;
+            c.ptol = (0, -10.0, 10.0);
+            c.semi = false;
         })?,
         // chimeric search that really returns several PSMs per spectrum
         3 => random_request_with(rng, 9, &|c| {
